@@ -330,6 +330,13 @@ fn live(x: &MRv) -> Option<Vec<u8>> {
 }
 
 /// property oracle on a pair of real states and their real digests
+/// two expiry values for which `SET h v PX <e> @(1, r1)` gets the same `KeyDigest.value_hash`: a real
+/// collision of SipHash-1-3 (zero key) on the byte stream `canonical_hash` writes, found by a
+/// distinguished-point search; kernel-checked on the model (`RedisVerif.C18.sip13_value_hash_collision`)
+const COLL_EXP_A: u64 = 7186234069774404105;
+const COLL_EXP_B: u64 = 11093851672895297929;
+const SRC_SIP_COLLISION: &str = "corpus: single key, values differ only in expiry_ms — a REAL SipHash-1-3 collision";
+
 fn oracle_digests(out: &mut Out, a: &State, b: &State, da: &StateDigest, db: &StateDigest, depth: usize, src: &str) {
     let (ca, cb) = (canon(a), canon(b));
     let replay = |what: &str| {
@@ -356,9 +363,17 @@ fn oracle_digests(out: &mut Out, a: &State, b: &State, da: &StateDigest, db: &St
                     }
                 }
             }
-            out.violation(&format!("C18:digest:false-in-sync:{}", class),
-                &format!("two different states have equal digests (root {}): the difference ({}) is invisible to KeyDigest::new", da.root_hash, class),
-                replay("different states, equal digests"));
+            if src == SRC_SIP_COLLISION {
+                // the ONE listed pair: the difference is hashed, SipHash-1-3 maps both byte streams to one value
+                out.violation("C18:digest:false-in-sync:sip13-collision",
+                    &format!("two states that differ in expiry_ms ({} vs {}) have equal digests (root {}): KeyDigest::new gives both values the value_hash {} — a collision of the 64-bit SipHash-1-3 (zero key)", COLL_EXP_A, COLL_EXP_B, da.root_hash,
+                        a.iter().next().map(|(k, v)| KeyDigest::new(k, v).value_hash).unwrap_or(0)),
+                    replay("different states, equal digests: hash collision"));
+            } else {
+                out.violation(&format!("C18:digest:false-in-sync:{}", class),
+                    &format!("two different states have equal digests (root {}): the difference ({}) is invisible to KeyDigest::new", da.root_hash, class),
+                    replay("different states, equal digests"));
+            }
         }
     }
 }
@@ -507,7 +522,10 @@ fn digest_ops(out: &mut Out, rng: &mut Rng, p: &Pair, src: &str) -> (StateDigest
             let prev = vh.insert(d.value_hash, m.clone());
             let c2 = prev.as_ref().map(|o| *o != m).unwrap_or(false);
             out.count(if c1 || c2 { "hash:collision-observed" } else { "hash:injective-on-used-values" });
-            if c2 {
+            if c2 && src == SRC_SIP_COLLISION {
+                // the ONE listed pair (reported as C18:digest:false-in-sync:sip13-collision by the digest oracle)
+                out.count("hash:collision-observed:the-listed-sip13-collision");
+            } else if c2 {
                 // two different values with the same value hash: a single-key state holding one or
                 // the other has the same digest (a false "in sync")
                 let o = prev.unwrap();
@@ -1266,6 +1284,22 @@ fn corpus(out: &mut Out, rng: &mut Rng, thorough: bool) {
         ("vc", base.clone(), MRv { vc: Some(vc), ..base.clone() }),
         ("rf", base.clone(), MRv { rf: Some(5), ..base.clone() }),
     ];
+    // (2b) the same shape with two expiry values whose byte streams COLLIDE under SipHash-1-3: false "in sync"
+    for depth in [0usize, 3] {
+        let mut a: State = HashMap::new();
+        a.insert("h".into(), MRv { exp: Some(COLL_EXP_A), ..base.clone() }.to_real());
+        let mut b: State = HashMap::new();
+        b.insert("h".into(), MRv { exp: Some(COLL_EXP_B), ..base.clone() }.to_real());
+        let (ka, kb) = (KeyDigest::new("h", &a["h"]), KeyDigest::new("h", &b["h"]));
+        if ka.value_hash != kb.value_hash {
+            out.violation("C18:harness:collision-witness-does-not-collide", "the two expiry values of the corpus case no longer give one value_hash: canonical_hash or the hasher changed (find a new pair)",
+                json!({"expiry_a": COLL_EXP_A.to_string(), "expiry_b": COLL_EXP_B.to_string(), "value_hash_a": ka.value_hash.to_string(), "value_hash_b": kb.value_hash.to_string()}));
+            break;
+        }
+        let p = Pair { a, b, depth };
+        digest_ops(out, rng, &p, SRC_SIP_COLLISION);
+        out.count("corpus:sip13-collision");
+    }
     for (name, x, y) in variants {
         let mut a: State = HashMap::new();
         a.insert("h".into(), x.to_real());
